@@ -89,6 +89,10 @@ EXPLANATION += (
     ' Round 14: the loop that hands the shared generator to the elections walks a plainly sorted sequence on every path (R-ORDER/elections-in-name-order).'
 )
 
+EXPLANATION += (
+    " Round 15: the genes handed to downsample_genes in assemble_query_data come from the parent's own cache entry (R-PROV/genes-of-this-parent)."
+)
+
 RULE_TEXT = (
     "one obligation per consumer of the tree, per reducer call, per "
     "drop_level(<config>) call site, per flatten rebinding")
